@@ -325,7 +325,7 @@ class ModelError(Exception):
     """the modelled code would raise at run time (AttributeError, IndexError, explicit raise...)"""
 
 
-_BYTES_METHODS = {"find", "rfind", "index", "count", "startswith", "endswith", "split", "rsplit", "strip", "rstrip", "lstrip", "join",
+_BYTES_METHODS = {"encode", "decode", "find", "rfind", "index", "count", "startswith", "endswith", "split", "rsplit", "strip", "rstrip", "lstrip", "join",
                   "replace", "lower", "upper", "partition", "rpartition", "splitlines"}
 _LIST_METHODS = {"index", "count"}
 _SAFE = {"len": len, "ord": ord, "bytes": bytes, "int": int, "min": min, "max": max, "list": list, "tuple": tuple, "bool": bool, "range": range,
@@ -339,12 +339,14 @@ class MiniInterp:
     None); everything outside the enumerated statement / expression forms raises AnalysisError (never a verdict).
     No repository code is executed: only this interpreter's own semantics of the whitelisted forms."""
 
-    def __init__(self, func: ast.AST, attrs: dict, hooks: dict, consts: Optional[dict] = None, loop_bound: int = 10000):
+    def __init__(self, func: ast.AST, attrs: dict, hooks: dict, consts: Optional[dict] = None, loop_bound: int = 10000, resolver=None, depth: int = 0):
         self.func = func
         self.attrs = attrs
         self.hooks = hooks
         self.consts = consts or {}
         self.loop_bound = loop_bound
+        self.resolver = resolver        # name -> FunctionDef of the same class (helpers are interpreted in place, sharing attrs and hooks)
+        self.depth = depth
 
     def _locals_of_func(self):
         if not hasattr(self, "_lnames"):
@@ -401,7 +403,8 @@ class MiniInterp:
             return v
         if isinstance(n, ast.BinOp):
             a, b = self.ev(n.left), self.ev(n.right)
-            ops = {ast.Add: lambda: a + b, ast.Sub: lambda: a - b, ast.Mult: lambda: a * b, ast.Mod: lambda: a % b, ast.FloorDiv: lambda: a // b}
+            ops = {ast.Add: lambda: a + b, ast.Sub: lambda: a - b, ast.Mult: lambda: a * b, ast.Mod: lambda: a % b, ast.FloorDiv: lambda: a // b,
+                   ast.BitAnd: lambda: a & b, ast.BitOr: lambda: a | b, ast.BitXor: lambda: a ^ b, ast.LShift: lambda: a << b, ast.RShift: lambda: a >> b}
             if type(n.op) in ops:
                 try:
                     return ops[type(n.op)]()
@@ -446,7 +449,11 @@ class MiniInterp:
             f = n.func
             if isinstance(f, ast.Attribute) and isinstance(f.value, ast.Name) and f.value.id == "self":
                 if f.attr not in self.hooks:
-                    raise AnalysisError(f"model: call self.{f.attr}() has no hook")
+                    h = self.resolver(f.attr) if self.resolver is not None else None
+                    if h is None or self.depth > 20 or n.keywords:
+                        raise AnalysisError(f"model: call self.{f.attr}() has no hook")
+                    sub = MiniInterp(h, self.attrs, self.hooks, self.consts, self.loop_bound, self.resolver, self.depth + 1)
+                    return sub.call(*[self.ev(a) for a in n.args])
                 args = []
                 for a in n.args:
                     try:
@@ -456,6 +463,23 @@ class MiniInterp:
                 return self.hooks[f.attr](*args)
             if n.keywords:
                 raise AnalysisError(f"model: keyword call {src(n)[:50]}")
+            if isinstance(f, ast.Attribute) and isinstance(f.value, ast.Name) and f.value.id == "struct" and "struct" not in self.loc and f.attr in ("pack", "unpack", "calcsize", "unpack_from"):
+                import struct as _struct
+                try:
+                    return getattr(_struct, f.attr)(*[self.ev(a) for a in n.args])
+                except (_struct.error, TypeError) as e:
+                    raise ModelError(f"struct.error: {e}")
+            if isinstance(f, ast.Attribute) and isinstance(f.value, ast.Name) and f.value.id == "int" and f.attr == "from_bytes" and "int" not in self.loc:
+                kw = {k.arg: self.ev(k.value) for k in n.keywords}
+                try:
+                    return int.from_bytes(*[self.ev(a) for a in n.args], **kw)
+                except (TypeError, ValueError) as e:
+                    raise ModelError(f"{type(e).__name__}: {e}")
+            if isinstance(f, ast.Name) and f.id == "isinstance" and len(n.args) == 2 and "isinstance" not in self.loc:
+                ts = n.args[1].elts if isinstance(n.args[1], ast.Tuple) else [n.args[1]]
+                types_ = {"str": str, "bytes": bytes, "int": int, "list": list, "tuple": tuple, "bytearray": bytearray, "dict": dict}
+                if all(isinstance(t, ast.Name) and t.id in types_ for t in ts):
+                    return isinstance(self.ev(n.args[0]), tuple(types_[t.id] for t in ts))
             if isinstance(f, ast.Name) and f.id in ("map", "filter") and len(n.args) == 2 and isinstance(n.args[0], ast.Name) and _SAFE.get(n.args[0].id):
                 return {"map": map, "filter": filter}[f.id](_SAFE[n.args[0].id], self.ev(n.args[1]))
             if isinstance(f, ast.Name) and _SAFE.get(f.id) is not None:
@@ -471,11 +495,11 @@ class MiniInterp:
                         return getattr(recv, f.attr)(*args)
                     except (ValueError, TypeError, IndexError) as e:
                         raise ModelError(f"{type(e).__name__}: {e}")
-                if isinstance(recv, list) and f.attr in ("append", "extend", "pop"):
+                if isinstance(recv, list) and f.attr in ("append", "extend", "pop", "clear", "insert", "remove", "reverse", "sort", "copy"):
                     try:
                         return getattr(recv, f.attr)(*args)
-                    except IndexError as e:
-                        raise ModelError(f"IndexError: {e}")
+                    except (IndexError, ValueError) as e:
+                        raise ModelError(f"{type(e).__name__}: {e}")
             raise AnalysisError(f"model: call {src(n)[:60]} not in the whitelist")
         raise AnalysisError(f"model: expression {type(n).__name__} not in the whitelist")
 
@@ -564,12 +588,28 @@ class MiniInterp:
             raise ModelContinue()
         elif isinstance(st, ast.Raise):
             raise ModelError("raise " + src(st)[:50])
+        elif isinstance(st, ast.Assert):
+            if not self.ev(st.test):
+                raise ModelError("AssertionError " + src(st.test)[:40])
         elif isinstance(st, ast.Delete):
             for t in st.targets:
                 if isinstance(t, ast.Name):
                     self.loc.pop(t.id, None)
                 elif isinstance(t, ast.Attribute) and isinstance(t.value, ast.Name) and t.value.id == "self":
+                    if t.attr not in self.attrs:
+                        raise ModelError(f"AttributeError: {t.attr}")
                     self.attrs.pop(t.attr, None)
+                elif isinstance(t, ast.Subscript):
+                    box = self.ev(t.value)
+                    try:
+                        if isinstance(t.slice, ast.Slice):
+                            lo = self.ev(t.slice.lower) if t.slice.lower else None
+                            hi = self.ev(t.slice.upper) if t.slice.upper else None
+                            del box[lo:hi]
+                        else:
+                            del box[self.ev(t.slice)]
+                    except (IndexError, KeyError, TypeError) as e:
+                        raise ModelError(f"{type(e).__name__}: {e}")
                 else:
                     raise AnalysisError("model: del form")
         else:
@@ -579,3 +619,329 @@ class MiniInterp:
 def _load(t):
     n = ast.parse(src(t), mode="eval").body
     return n
+
+
+# ---- normalised views of methods: private helpers inlined, named temporaries substituted -----------------------
+
+class Normaliser:
+    """``Normaliser(mod, class_names, known).view(func)`` gives an analysis copy of ``func`` in which
+    (1) calls of unknown private helpers of the same classes are expanded at the call site (also when the call sits inside a
+        larger expression: it is first bound to a temporary), using the Inliner of _lib_d;
+    (2) single-assignment locals that merely name a stable expression (``ours = optionState.us``, ``handler = self.willMap[k]``,
+        ``sequence = IAC + DO + option``) are replaced by that expression.
+    Rules written against the direct shape then read refactored code the same way.  ``known`` = names never inlined."""
+
+    def __init__(self, mod, cls_names, known, subscripts: bool = True):
+        from sa.props._lib_d import Inliner
+        from sa.source import methods as _methods
+        public = {n for c in mod.classes() if c.name in cls_names for n in _methods(c) if not n.startswith("_") or n.startswith("__")}
+        self.inl = Inliner(mod, cls_names, set(known) | public)      # only private helpers are ever expanded
+        self.subscripts = subscripts
+        self._views: Dict[int, ast.AST] = {}
+        self._n = 0
+
+    def permitted(self, fname, allowed) -> bool:
+        return self.inl.permitted(fname, allowed)
+
+    def view(self, func):
+        v = self._views.get(id(func))
+        if v is not None:
+            return v
+        from sa.props._lib_d import _clone
+        v = _clone(func)
+        v.body = self._hoist_block(v.body)
+        v.body = self.inl._stmts(v.body, 0)
+        for _ in range(4):
+            if not self._subst_once(v):
+                break
+        ast.fix_missing_locations(v)
+        for parent in ast.walk(v):
+            for child in ast.iter_child_nodes(parent):
+                child._parent = parent  # type: ignore[attr-defined]
+        v._parent = getattr(func, "_parent", None)  # type: ignore[attr-defined]
+        self._views[id(func)] = v
+        return v
+
+    # -- (1) helper calls nested in expressions -> temporaries
+    def _hoist_block(self, stmts):
+        out = []
+        for st in stmts:
+            for field in ("body", "orelse", "finalbody"):
+                if isinstance(getattr(st, field, None), list) and not isinstance(st, (ast.FunctionDef, ast.AsyncFunctionDef, ast.ClassDef)):
+                    setattr(st, field, self._hoist_block(getattr(st, field)))
+            for h in getattr(st, "handlers", []) or []:
+                h.body = self._hoist_block(h.body)
+            if isinstance(st, (ast.Expr, ast.Assign, ast.AugAssign, ast.Return)) and st.value is not None:
+                top = st.value
+                pre = []
+                outer = self
+
+                class T(ast.NodeTransformer):
+                    def visit_Call(self, node):
+                        self.generic_visit(node)
+                        if node is not top and outer.inl.helper_of(node) is not None:
+                            outer._n += 1
+                            tmp = f"_h{outer._n}"
+                            pre.append(ast.copy_location(ast.Assign(targets=[ast.Name(id=tmp, ctx=ast.Store())], value=node, lineno=st.lineno), st))
+                            return ast.copy_location(ast.Name(id=tmp, ctx=ast.Load()), node)
+                        return node
+
+                    def visit_Lambda(self, node):
+                        return node
+                st.value = T().visit(st.value)
+                out.extend(ast.fix_missing_locations(p) for p in pre)
+            out.append(st)
+        return out
+
+    # -- (2) alias substitution
+    def _stable(self, v):
+        if pure_expr(v):
+            return True
+        if self.subscripts and isinstance(v, ast.Subscript) and self._stable(v.value):
+            sl = v.slice
+            elts = sl.elts if isinstance(sl, ast.Tuple) else [sl]
+            return all(self._stable(e) for e in elts) and not isinstance(sl, ast.Slice)
+        return False
+
+    @staticmethod
+    def _free_names_settled(f, assign, free, params) -> bool:
+        """every (re)binding of a name used in the aliased expression happens before the alias is defined, and not in a loop around it"""
+        pos = (assign.lineno, assign.col_offset)
+        loops = []
+        n = getattr(assign, "_parent", None)
+        # parents are not set on the working copy: find enclosing loops by containment
+        for lp in ast.walk(f):
+            if isinstance(lp, (ast.For, ast.While)) and any(x is assign for x in ast.walk(lp)):
+                loops.append(lp)
+        for x in ast.walk(f):
+            if isinstance(x, ast.Name) and x.id in free and isinstance(x.ctx, (ast.Store, ast.Del)):
+                if (x.lineno, x.col_offset) >= pos:
+                    return False
+                if any(any(y is x for y in ast.walk(lp)) for lp in loops):
+                    return False
+        return True
+
+    def _subst_once(self, f) -> bool:
+        params = {a.arg for a in f.args.args}
+        stores: Dict[str, int] = {}
+        store_targets = set()
+        for n in ast.walk(f):
+            if isinstance(n, ast.Name) and isinstance(n.ctx, (ast.Store, ast.Del)):
+                stores[n.id] = stores.get(n.id, 0) + 1
+            if isinstance(n, (ast.Attribute, ast.Subscript)) and isinstance(n.ctx, (ast.Store, ast.Del)):
+                store_targets.add(src(n))
+        table = {}
+        drop = set()
+        for n in ast.walk(f):
+            if isinstance(n, ast.Assign) and len(n.targets) == 1 and isinstance(n.targets[0], ast.Name):
+                name = n.targets[0].id
+                if stores.get(name) != 1 or name in params or not self._stable(n.value):
+                    continue
+                if src(n.value) in store_targets:
+                    continue            # a snapshot of mutable state (d = state.him.onResult), not a name for it
+                free = {x.id for x in ast.walk(n.value) if isinstance(x, ast.Name)}
+                if name in free or not self._free_names_settled(f, n, free, params):
+                    continue            # the expression may denote different values at different points (a re-bound name in it)
+                if any(isinstance(x, ast.Call) for x in ast.walk(n.value)) and not pure_expr(n.value):
+                    continue
+                table[name] = n.value
+                drop.add(id(n))
+        if not table:
+            return False
+        from sa.props._lib_d import _clone
+
+        class S(ast.NodeTransformer):
+            def visit_Name(self, node):
+                if isinstance(node.ctx, ast.Load) and node.id in table:
+                    return ast.copy_location(_clone(table[node.id]), node)
+                return node
+
+            def visit_Assign(self, node):
+                if id(node) in drop:
+                    return ast.copy_location(ast.Pass(), node)
+                return self.generic_visit(node)
+        for _ in range(4):      # temporaries defined in terms of other temporaries
+            for k in list(table):
+                table[k] = S().visit(_clone(table[k]))
+        S().visit(f)
+        return True
+
+
+# ---- XVM: the concrete interpreter of _lib_d with a few more Python forms (still only walks source; nothing is imported) ---------
+
+def _make_xvm():
+    import struct as _struct
+    from sa.props._lib_d import MiniVM, VMBound, VMClass, VMError, VMFunc, VMStub
+
+    class CodeStub(VMStub):
+        def __init__(self, argcount):
+            self.co_argcount = argcount
+
+    class XVM(MiniVM):
+        """MiniVM + nested classes, generator functions (collected eagerly), starred elements in tuple / list displays,
+        dict comprehensions, hasattr / getattr, ``f.__code__.co_argcount`` and struct.Struct objects."""
+
+        def __init__(self, module, hooks=None, budget=4 * 10 ** 7, siblings=None):
+            MiniVM.__init__(self, module, hooks=hooks, budget=budget, siblings=siblings)
+            self._ystack = []
+            self._isgen = {}
+            g = self.mod._g
+
+            def _has(o, n):
+                try:
+                    self.getattr(o, n)
+                    return True
+                except Exception:
+                    return False
+
+            def _get(o, n, *d):
+                try:
+                    return self.getattr(o, n)
+                except Exception:
+                    if d:
+                        return d[0]
+                    raise
+            self._extra = {"hasattr": lambda o, n: _has(o, n), "getattr": lambda o, n, *d: _get(o, n, *d), "type": lambda o: type(o),
+                           "map": lambda f, *its: [self.call(f, list(xs), {}) for xs in zip(*its)],
+                           "filter": lambda f, it: [x for x in it if self.truth(self.call(f, [x], {}) if f is not None else x)]}
+            g.update(self._extra)
+
+        def module(self, module):
+            """another repository module interpreted by this VM (for `from pkg import mod` imports): a VMModule with the same extra builtins"""
+            from sa.props._lib_d import VMModule
+            m = VMModule(module, self)
+            m._g.update(self._extra)
+            return m
+
+        def class_attr(self, cls, name):
+            for c in cls.mro():
+                for n in c.node.body:
+                    if isinstance(n, ast.ClassDef) and n.name == name:
+                        k = ("nested", name)
+                        if k not in c._cache:
+                            c._cache[k] = VMClass(c.mod, n)
+                        return c._cache[k]
+            return MiniVM.class_attr(self, cls, name)
+
+        def getattr(self, v, name):
+            if name == "__code__" and isinstance(v, (VMBound, VMFunc)):
+                f = v.func if isinstance(v, VMBound) else v
+                return CodeStub(len(f.node.args.args))
+            if name == "__name__" and isinstance(v, (VMBound, VMFunc)):
+                f = v.func if isinstance(v, VMBound) else v
+                return f.node.name
+            if isinstance(v, _struct.Struct) and not name.startswith("_"):
+                return getattr(v, name)
+            if v in (int, bytes, str, dict, bytearray) and not name.startswith("_"):
+                return getattr(v, name)         # int.from_bytes, bytes.fromhex, dict.fromkeys ...
+            if isinstance(v, type) and issubclass(v, VMStub) and not name.startswith("__"):
+                return getattr(v, name)         # a stand-in class: class attributes / classmethod constructors
+            return MiniVM.getattr(self, v, name)
+
+        def call(self, fn, args, kwargs):
+            if getattr(fn, "__self__", None) in (int, bytes, str, dict, bytearray) and not isinstance(fn, type):
+                from sa.props._lib_d import VMObj as _VMObj, VMRaise_native as _raise
+                if any(isinstance(a, _VMObj) for a in args):
+                    raise VMError("interpreted object passed to a builtin constructor method")
+                try:
+                    return fn(*args, **kwargs)
+                except (TypeError, ValueError, OverflowError) as e:
+                    raise _raise(e)
+            if (isinstance(fn, type) and issubclass(fn, VMStub)) or (isinstance(getattr(fn, "__self__", None), type) and issubclass(fn.__self__, VMStub)):
+                return fn(*args, **kwargs)      # constructing a stand-in / calling its classmethod (stand-ins raise plain Python exceptions)
+            if isinstance(getattr(fn, "__self__", None), _struct.Struct):
+                try:
+                    return fn(*args, **kwargs)
+                except _struct.error as e:
+                    from sa.props._lib_d import VMRaise_native
+                    raise VMRaise_native(e)
+            return MiniVM.call(self, fn, args, kwargs)
+
+        def _run_star(self, func, args, kwargs):
+            """functions with *args / **kwargs parameters"""
+            from sa.props._lib_d import VMRaise_native, _Ret
+            node = func.node
+            a = node.args
+            if a.kwonlyargs or a.posonlyargs:
+                raise VMError(f"signature of {node.name} outside the subset")
+            names = [x.arg for x in a.args]
+            env = dict(zip(names, args))
+            extra = list(args[len(names):])
+            if extra and not a.vararg:
+                raise VMRaise_native(TypeError(f"{node.name}() takes {len(names)} positional arguments"))
+            kw = {}
+            for k, v in kwargs.items():
+                if k in names and k not in env:
+                    env[k] = v
+                elif a.kwarg:
+                    kw[k] = v
+                else:
+                    raise VMRaise_native(TypeError(f"{node.name}() unexpected argument {k}"))
+            for n_, d in zip(names[len(names) - len(a.defaults):], a.defaults):
+                if n_ not in env:
+                    env[n_] = self.eval(d, {}, func.mod, None)
+            missing = [n_ for n_ in names if n_ not in env]
+            if missing:
+                raise VMRaise_native(TypeError(f"{node.name}() missing {missing}"))
+            if a.vararg:
+                env[a.vararg.arg] = tuple(extra)
+            if a.kwarg:
+                env[a.kwarg.arg] = kw
+            try:
+                self.block(node.body, env, func.mod, func.owner)
+            except _Ret as r:
+                return r.v
+            return None
+
+        def _run(self, func, args, kwargs):
+            node = func.node
+            if not isinstance(node, ast.Lambda) and (node.args.vararg or node.args.kwarg):
+                return self._run_star(func, args, kwargs)
+            isgen = self._isgen.get(id(node))
+            if isgen is None:
+                isgen = self._isgen[id(node)] = (not isinstance(node, ast.Lambda)) and any(isinstance(x, (ast.Yield, ast.YieldFrom)) for x in walk_local(node))
+            if isgen:
+                self._ystack.append([])
+                try:
+                    MiniVM._run(self, func, args, kwargs)
+                finally:
+                    out = self._ystack.pop()
+                return iter(out)
+            return MiniVM._run(self, func, args, kwargs)
+
+        def _eval(self, e, env, mod, owner):
+            if isinstance(e, ast.Yield):
+                if not self._ystack:
+                    raise VMError("yield outside a generator activation")
+                self._ystack[-1].append(self.eval(e.value, env, mod, owner) if e.value is not None else None)
+                return None
+            if isinstance(e, ast.YieldFrom):
+                if not self._ystack:
+                    raise VMError("yield from outside a generator activation")
+                self._ystack[-1].extend(list(self.eval(e.value, env, mod, owner)))
+                return None
+            if isinstance(e, (ast.Tuple, ast.List)) and any(isinstance(x, ast.Starred) for x in e.elts):
+                out = []
+                for x in e.elts:
+                    if isinstance(x, ast.Starred):
+                        out.extend(list(self.eval(x.value, env, mod, owner)))
+                    else:
+                        out.append(self.eval(x, env, mod, owner))
+                return tuple(out) if isinstance(e, ast.Tuple) else out
+            if isinstance(e, ast.DictComp) and len(e.generators) == 1 and not e.generators[0].is_async:
+                gen = e.generators[0]
+                out = {}
+                local = dict(env) if isinstance(env, dict) else {}
+                for v in self.eval(gen.iter, env, mod, owner):
+                    self.assign(gen.target, v, local, mod, owner)
+                    if all(self.truth(self.eval(c, local, mod, owner)) for c in gen.ifs):
+                        out[self.eval(e.key, local, mod, owner)] = self.eval(e.value, local, mod, owner)
+                return out
+            return MiniVM._eval(self, e, env, mod, owner)
+
+    return XVM
+
+
+def xvm(module, hooks=None, budget=4 * 10 ** 7, siblings=None):
+    """an XVM instance over ``module`` (sa.source.Module)"""
+    return _make_xvm()(module, hooks=hooks, budget=budget, siblings=siblings)
